@@ -60,8 +60,14 @@ verus! {
 #[verifier::external_type_specification] #[verifier::external_body] pub struct ExStdinLock<'a>(std::io::StdinLock<'a>);
 #[verifier::external_type_specification] #[verifier::external_body] #[verifier::reject_recursive_types(W)] pub struct ExBufWriter<W: ?Sized + std::io::Write>(std::io::BufWriter<W>);
 // C13: the only statuses xt exits with are 0 (help / version in parse_args, or the normal return), 1 (failure) and 2 (invalid command line)
+// -- and each status is tied to its cause (the command line of this process is `lexopt::env_args()`, a constant of the run):
+// 2 exactly when the command line is invalid (so 0 and 1 never for an invalid one, and 2 never for a valid one);
+// an exit with 0 only for a help / version request (the other status 0 is main()'s normal return, which needs a valid command line)
 pub assume_specification [std::process::exit] (code: i32) -> !
-    requires 0 <= code <= 2;
+    requires 0 <= code <= 2,
+        (code == 2) == (parse_model(lexopt::env_args(), None, None, 0) == Outcome::Invalid),
+        code == 0 ==> parse_model(lexopt::env_args(), None, None, 0) == Outcome::Exits,
+        code == 1 ==> parse_model(lexopt::env_args(), None, None, 0) is Valid;   // a failure status is never the answer to -h / -V
 pub assume_specification [std::io::stderr] () -> std::io::Stderr;
 pub assume_specification [std::io::Stderr::lock] (s: &std::io::Stderr) -> std::io::StderrLock<'static>;
 pub assume_specification [std::io::stdout] () -> std::io::Stdout;
@@ -360,6 +366,7 @@ NAMES_SPEC = '''ensures
         match r { Ok(f) => name_format(s) == Some(f), Err(_) => name_format(s) is None },'''
 
 LOOP_INV = '''invariant verus_iter.obeys_prophetic_iter_laws(),
+            parse_model(lexopt::env_args(), None, None, 0) is Valid,   // C13: every exit from inside the loop belongs to a VALID command line (status 1, never 2)
             !tr_dirty(&translator),
             tr_to(&translator) == args.to,
             tr_calls(&translator).len() == seen.len(),
